@@ -34,6 +34,9 @@ pub struct L2Cfg {
     pub max_states: usize,
     pub deadline: std::time::Instant,
     pub seed: u64,
+    /// violation classes of `check_state` that this run does not report (they belong to another
+    /// property's check, which runs the same search)
+    pub ignore: &'static [&'static str],
 }
 
 pub struct Sys {
@@ -720,7 +723,7 @@ pub fn explore(cfg: &L2Cfg, keep_for_progress: usize) -> (Sys, Tables, L2Result)
             let (g, path) = &frontier[*fi];
             let (ng, flags) = successor(&t, g, a, mk);
             res.transitions += 1;
-            if flags.store_rewritten {
+            if flags.store_rewritten && !cfg.ignore.contains(&"store_rewritten") {
                 let mut p = path.clone();
                 p.push(a.desc.clone());
                 viol.entry("store_rewritten".into()).or_insert_with(|| (format!("[store_rewritten] a correct replica removed or replaced a committed block\n  path: {}", p.join("  ->  ")), serde_json::json!({"harness":"l2","path":p})));
@@ -733,6 +736,9 @@ pub fn explore(cfg: &L2Cfg, keep_for_progress: usize) -> (Sys, Tables, L2Result)
                 let mut p = path.clone();
                 p.push(a.desc.clone());
                 for (k, what) in check_state(&sys, &t, &ng) {
+                    if cfg.ignore.contains(&k.as_str()) {
+                        continue;
+                    }
                     viol.entry(k.clone()).or_insert_with(|| (format!("[{k}] {what}\n  path ({} steps): {}", p.len(), p.join("  ->  ")), serde_json::json!({"harness":"l2","path":p})));
                 }
                 let nb = ng.locals.iter().map(|l| t.locals[*l as usize].blocks.len()).max().unwrap_or(0);
